@@ -596,6 +596,51 @@ EXT_TEXTS = [
 ]
 
 
+# nested lists that numpy stores as OBJECT arrays: the rows are separate ndarray objects, so a copy of the
+# outer array is shallow and a write into a row reaches every holder of that row (oracles only)
+OBJ_LITS = ['[[1 2] [:a 4 5]]', '[[1 2] ["x" 4 5]]', '[[1] [2 3]]', '["ab" "cde"]', '[[1 [2 3]] [4 [5 6 7]]]',
+            '[[0ca 1] [2 3 4]]', '[:p :q :r]', '[[:a :b] [:c :d :e] [1 2]]', '[["ab" 1] ["c" 2 3]]',
+            '[[[1 2] [:a 4 5]] [[6] [7 8]]]', '[1 "a" :b 0cx]', '[[1 2] [3 4]]']
+OBJ_VALS = ['9', ':z', '"s"', '0cq', '0']
+
+
+def gen_obj_stmt(rng, history):
+    V = lambda: rng.choice(DATA)
+    i = lambda: str(rng.choice([0, 0, 1, 1, 2]))
+    path = lambda n: ",".join(i() for _ in range(n))
+    val = lambda: rng.choice(OBJ_VALS)
+    sub = lambda w: rng.choice([f"({i()}_{w})", f"({rng.choice([1, 2, -1])}#{w})", f"(|{w})", f"({w}@{i()})",
+                                f"({w}@[{i()} {i()}])", w, w])
+    r = rng.random()
+    if history and r < 0.22:
+        return rng.choice(history)
+    if r < 0.36:
+        return f"{V()}::{rng.choice(OBJ_LITS)}"
+    if r < 0.42:
+        return f"{V()}::{V()}"
+    if r < 0.47:
+        return f"{V()}::[;{V()};[1 2]]"
+    if r < 0.52:
+        return f"{V()}::{sub(V())}"
+    if r < 0.60:
+        return V()
+    w = V()
+    depth = rng.choice([1, 2, 2, 2, 3])
+    op = rng.choice([":-", ":-", ":-", ":="])
+    target = sub(w)
+    rhs = f"{val()},{path(depth if op == ':-' else 1)}"
+    e = f"{target}{op}{rhs}"
+    return f"{V()}::{e}" if rng.random() < 0.6 else e
+
+
+def gen_obj_history(rng, length):
+    from klongpy import KlongInterpreter
+    hist = [f"{w}::{rng.choice(OBJ_LITS)}" for w in rng.sample(DATA, rng.randrange(2, 4))]
+    for _ in range(length):
+        hist.append(gen_obj_stmt(rng, hist))
+    return [("expr", ("raw", t)) for t in hist]
+
+
 def scripted_histories():
     """hand-made histories the property description names"""
     A_ = lambda n, e: ("expr", assign(n, e))
@@ -651,6 +696,14 @@ def scripted_histories():
                 A_("a", lit_ints([1, 2, 3])), E_(var("a")), A_("f", ("fn", op2("join", var("x"), lit_ints([9, 9])))),
                 A_("c", call("f", var("a"))), A_("d", op2("amend", var("c"), op2("join", lit_int(0), lit_int(3)))),
                 E_(call("f", var("a")))])
+    # object arrays: a shallow copy of the outer list is not enough (rows are shared ndarray objects)
+    R_ = lambda t: ("expr", ("raw", t))
+    out.append([R_('a::[[1 2] [:a 4 5]]'), R_('b::a:-9,1,1'), R_('a'), R_('b'), R_('a::[[1 2] [:a 4 5]]'), R_('a')])
+    out.append([R_('a::[[1 2] ["x" 4 5]]'), R_('a:-0,1,2'), R_('a:-7,1,1'), R_('a::[[1 2] ["x" 4 5]]'), R_('a')])
+    out.append([R_('c::[:p :q :r]'), R_('d::[;c;[1 2]]'), R_('b::d:-:z,0,0'), R_('c'), R_('d'), R_('b')])
+    out.append([R_('a::[[1 [2 3]] [4 [5 6 7]]]'), R_('b::a:-9,1,1,0'), R_('a'), R_('c::(1_a):-8,0,1,1'), R_('a'),
+                R_('d::(a@1):=0,0'), R_('a'), R_('d::(|a):-:z,0,0'), R_('a')])
+    out.append([R_('a::["ab" "cde"]'), R_('b::a:-0cz,1,0'), R_('a'), R_('c::a:="q",0'), R_('a'), R_('a::["ab" "cde"]'), R_('a')])
     # dictionaries are shared and updated in place; dictionary literals are fresh each time
     out.append([A_("t", ("dlit", [(1, 2)])), A_("d", var("t")), E_(op2("join", var("t"), op2("join", lit_int(3), lit_int(4)))),
                 E_(var("d")), A_("t", ("dlit", [(1, 2)])), E_(var("t")), E_(var("d")), E_(op2("find", var("d"), lit_int(3)))])
@@ -818,7 +871,8 @@ def run(ctx):
     ctx.rule = ("seeded statement histories over the closed grammar (literal/copy/verb assignments, amend and "
                 "amend-in-depth, take/drop/index/reverse views then amended, function definitions and calls, over/scan "
                 "on variables, repeated identical texts, variables rebound to another kind, dictionary updates, module "
-                "switches); each statement re-run in a fresh interpreter loaded with a copy of the pre-state and in a "
+                "switches; oracle-only histories over object arrays: ragged rows, rows with symbols/strings/characters, "
+                "lists of strings, depth-3 lists, amended directly and through take/drop/index/reverse); each statement re-run in a fresh interpreter loaded with a copy of the pre-state and in a "
                 "cache-cleared interpreter; distinct = distinct histories; non-trivial = at least two statements")
     ctx.assumptions += [
         "Python-side mutation of arrays obtained through klong[name] is outside the property",
@@ -846,6 +900,11 @@ def run(ctx):
         for s in range(n_ext):
             h = gen_history(ctx.rng, ctx.rng.randrange(4, 10 if quick else 16), ext=True)
             run_history(ctx, h, drv, "history-ext")
+        for s in range(150 if quick else 2500):
+            h = gen_obj_history(ctx.rng, ctx.rng.randrange(4, 10 if quick else 14))
+            run_history(ctx, h, None, "history-obj")
+            if s < 2:
+                ctx.sample(dict(kind="history-obj", texts=[stmt_text(x) for x in h]))
         tot = ctx.hist.get("modelled", 0) + ctx.hist.get("unmodelled", 0)
         ctx.extra["fraction_of_model_grammar_statements_inside_model_domain"] = (
             round(ctx.hist.get("modelled", 0) / tot, 4) if tot else None)
